@@ -55,6 +55,7 @@ structure RandSet where
   fields : List Nat := []
   hard : List (Nat × Stmt) := []      -- (id of the top-level statement, statement)
   soft : List SoftEntry := []
+  dists : List (Nat × Nat) := []      -- `dist_field_m`: (field, dist id) registered with this set
   deriving Repr
 
 structure St where
@@ -140,11 +141,22 @@ def processTop (n : Nat) (st : St) (c : Nat × Stmt) : St :=
     | .soft e => { st with sets := modifySet st.sets a fun rs => addSoft rs ⟨p, [], e⟩ }
     | _ => { st with sets := modifySet st.sets a fun rs => addHard rs c }
 
-/-- all enabled blocks of the call, flattened to their top-level statements in visit order -/
-def build (tops : List Stmt) : St :=
+/-- `visit_constraint_dist_scope`: after the statements of a rewritten dist were visited, the dist is
+    registered with the rand set that is active then.  (A later merge of that set *into* another
+    one does not carry the registration along: `process_fieldref` moves fields and constraints only.) -/
+def registerDist (st : St) (f d : Nat) : St :=
+  match st.active with
+  | some a => { st with sets := modifySet st.sets a fun rs => { rs with dists := rs.dists ++ [(f, d)] } }
+  | none => st
+
+/-- all enabled blocks of the call, flattened to their top-level statements in visit order;
+    `marks` = (index of the last statement of a rewritten dist, its field, its id) -/
+def build (tops : List Stmt) (marks : List (Nat × Nat × Nat) := []) : St :=
   let n := (tops.map countSoft).sum
   let idd := (List.range tops.length).zip tops
-  idd.foldl (processTop n) {}
+  idd.foldl (fun st c =>
+    let st := processTop n st c
+    (marks.filter fun m => m.1 == c.1).foldl (fun s m => registerDist s m.2.1 m.2.2) st) {}
 
 def randSets (st : St) : List RandSet := st.sets.filterMap id
 
